@@ -104,6 +104,18 @@ CHECKS = {
         design_ref='§7 C10',
         note=NOTE_COMMON + 'Cross-kind pairs and blank vs TRUE are out of scope; for two texts and blank vs a negative number only the laws are demanded.',
         technique='TLA+ comparison oracle with TLC-checked laws, TLC-enumerated pairs replayed, trace validation of all observations'),
+    'C16': dict(
+        category='model_checking',
+        text=('TLC checks the property\'s own algebra on the exact-decimal oracle (XlRounding: ROUND half away from zero, ROUNDUP away from zero, '
+              'ROUNDDOWN toward zero on scaled integers): idempotence, monotonicity, half-quantum bound, bracket, odd symmetry, representable => '
+              'unchanged, ties away from zero, for every m in -M..M at scale 4 x digit counts -3..6; it enumerates the decimal grid sign x integer '
+              'part x 4 fractional digits with the exact result of each function for each digit count and of x%. Binding: every grid decimal is '
+              'supplied to the real pipeline as an override (all), workbook cell, literal, with the digit count from a cell (samples) and through '
+              'the public file path; results are compared in exact decimal mode (the shortest repr of the returned double must be the exact decimal '
+              'result); random decimals up to 9 significant digits are recomputed by TLC from recorded events (Trace_C16).'),
+        design_ref='§7 C16',
+        note=NOTE_COMMON + 'TLC integers are 32-bit: grid |x| < 1235 with 4 fractional digits, random decimals <= 9 significant digits; the nearest-double clause is carried by the abstraction function (repr round trip).',
+        technique='TLA+ exact-decimal oracle with TLC-checked laws, TLC-enumerated grid replayed, trace validation'),
 }
 
 NOT_APPLICABLE = {}
